@@ -37,6 +37,11 @@ impl fmt::Debug for Nl {
             NLOG += 1;
         }
         let s = unsafe { core::str::from_utf8_unchecked(core::slice::from_raw_parts(self.p, self.len)) };
+        if self.split == self.len + 2 {
+            // a third way of writing the same text: character by character through `write_char` (what `char`'s Display and hand-written impls do)
+            for &b in s.as_bytes() { fmt::Write::write_char(f, b as char)?; }
+            return Ok(());
+        }
         let k = if self.split <= self.len { self.split } else { self.len };
         f.write_str(&s[..k])?;
         f.write_str(&s[k..])
